@@ -320,8 +320,9 @@ def dispatch (k : List Slot) (hs : List DHandler) (args : List (Slot × DVal)) :
     match argAt args s with
     | none => .raised
     | some v =>
-      -- `dict.get(arg)` hashes the argument: an unhashable value (list, dict) raises TypeError
-      if v.eq ≥ unhashableFrom then .raised else
+      -- `dict.get(arg)` hashes the argument: for an unhashable value (list, dict) the TypeError is caught and
+      -- the dispatcher falls through (since the `fix:` for finding D32)
+      if v.eq ≥ unhashableFrom then .fallthrough else
       match table.find? (fun e => e.1 == v.eq) with
       | some e => .handler e.2
       | none => .fallthrough
